@@ -317,10 +317,16 @@ def main():
     r.add_argument("--json", default=None)
     args = ap.parse_args()
     setup_paths(args.repo)
-    if args.cmd == "bounded":
-        sys.exit(bounded(args))
-    if args.cmd == "replay":
-        sys.exit(replay(args))
+    try:
+        if args.cmd == "bounded":
+            sys.exit(bounded(args))
+        if args.cmd == "replay":
+            sys.exit(replay(args))
+    except SystemExit:
+        raise
+    except BaseException:  # noqa: BLE001 - a crash of the harness is never a verdict
+        traceback.print_exc()
+        sys.exit(3)
     ap.print_help()
     sys.exit(3)
 
